@@ -1,9 +1,14 @@
 #!/bin/sh
-# run the quick tier of every claimed property; print one line per property
+# run one tier of every claimed property (or of the properties named after the tier); print one line per property
+# usage: tools/runall.sh [quick|thorough] [Cxx ...]
 cd "$(dirname "$0")/.." || exit 2
-for p in $(/venv/bin/python -c "import json;print(' '.join(c['property_id'] for c in json.load(open('MANIFEST.json'))['checks']))"); do
+tier=${1:-quick}
+[ $# -gt 0 ] && shift
+props="$*"
+[ -z "$props" ] && props=$(/venv/bin/python -c "import json;print(' '.join(c['property_id'] for c in json.load(open('MANIFEST.json'))['checks']))")
+for p in $props; do
   s=$(date +%s)
-  out=$(./check $p ${1:-quick} 2>&1); rc=$?
+  out=$(./check $p $tier 2>&1); rc=$?
   e=$(date +%s)
   echo "$p exit=$rc $((e-s))s $(echo "$out" | grep -c '^VIOLATION') violations $(echo "$out" | grep -c '^KNOWN-FINDING') known $(echo "$out" | grep -c 'HARNESS-ERROR') harness"
   echo "$out" | grep '^VIOLATION\|HARNESS-ERROR' | head -5
